@@ -14,6 +14,7 @@ theorem fpAdd_F_of_representable (rm : RM) (a b : Nat) (hrep : SumRepresentable 
     fpAdd F rm a b = add F .RNE a b := by
   have hl : ∀ x, lift F x = widen x := fun x => by unfold lift; rw [if_pos rfl]
   have hlow : ∀ d, lower F d = narrow d := fun d => by unfold lower; rw [if_pos rfl]
+  unfold SumRepresentable at hrep
   unfold fpAdd pyAdd; rw [hl, hl, hlow]
   by_cases hna : isNaN F a = true
   · rw [widen_nan a hna, add_nan_left _ _ _ isNaN_nanBits_D, narrow_nan]; unfold add; simp [hna]
@@ -64,6 +65,7 @@ theorem fpAdd_F_of_representable (rm : RM) (a b : Nat) (hrep : SumRepresentable 
           have hab : (SF * 2 ^ 925).natAbs = SF.natAbs * 2 ^ 925 := by
             rw [Int.natAbs_mul]; congr 1
           simp only [hne, if_false, hab, hlt]
+          rw [if_neg h0]
       have hF : add F .RNE a b =
           if SF = 0 then (if (signOf F a == signOf F b) = true then mkBits F (signOf F a) 0 else mkBits F false 0)
           else roundS F .RNE (decide (SF < 0)) SF.natAbs 1 := by
@@ -75,13 +77,45 @@ theorem fpAdd_F_of_representable (rm : RM) (a b : Nat) (hrep : SumRepresentable 
       · simp only [h0, if_true]; split <;> exact narrow_zero _
       · simp only [h0, if_false]
         obtain ⟨g3, hg3f, hg3v⟩ := hrep
-        rw [roundS_exact' D wf64 .RNE _ g3 _ 1 (by decide) hg3f (by rw [hg3v, Nat.mul_one])]
+        rw [roundS_exact' D wf64 .RNE _ g3 _ 1 Nat.zero_lt_one hg3f (by rw [hg3v, Nat.mul_one])]
         unfold narrow cvt
         simp only [notNaN_mkBits _ g3 hg3f, notInf_mkBits _ g3 hg3f, signOf_mkBits _ g3 hg3f, magOf_mkBits _ g3 hg3f,
           Bool.false_eq_true, if_false, Fq, Dq]
         rw [hg3v, Nat.mul_assoc, ← Nat.pow_add]
-        have := roundS_scale F .RNE (decide (SF < 0)) SF.natAbs 1 (2 ^ 1074) (by decide) (Nat.two_pow_pos _)
+        have := roundS_scale F .RNE (decide (SF < 0)) SF.natAbs 1 (2 ^ 1074) Nat.zero_lt_one (Nat.two_pow_pos _)
         rw [Nat.one_mul] at this
         exact this
+
+end Claripy.FP.Fold
+
+namespace Claripy.FP.Fold
+open Claripy.FP Claripy.FP.Extract
+
+theorem sval_F_lt (mag : Nat) (hfin : mag < F.infMag) : sval F mag < 2 ^ 277 := by
+  obtain ⟨sig, e, hv, hs, he⟩ := sval_F_form mag hfin
+  rw [hv]
+  calc sig * 2 ^ e < 2 ^ 24 * 2 ^ e := Nat.mul_lt_mul_of_pos_right hs (Nat.two_pow_pos _)
+    _ = 2 ^ (24 + e) := by rw [← Nat.pow_add]
+    _ ≤ 2 ^ 277 := Nat.pow_le_pow_right (by decide) (by omega)
+
+theorem sintOf_F_natAbs_lt (a : Nat) (hfin : magOf F a < F.infMag) : (sintOf F a).natAbs < 2 ^ 277 := by
+  have := sval_F_lt (magOf F a) hfin
+  unfold sintOf; split <;> simpa using this
+
+/-- a concrete sufficient condition: the exact sum has at most 53 significant bits -/
+theorem sumRepresentable_of_53_bits (a b M k : Nat) (hfa : magOf F a < F.infMag) (hfb : magOf F b < F.infMag)
+    (hS : (sintOf F a + sintOf F b).natAbs = M * 2 ^ k) (hM : M < 2 ^ 53) : SumRepresentable a b := by
+  obtain ⟨g, hg⟩ := representable_of_dyadic D M (k + 925) (by rw [Dmbits]; exact Nat.lt_of_lt_of_le hM (by decide))
+  refine ⟨g, ?_, by rw [hg, hS, Nat.mul_assoc, ← Nat.pow_add]⟩
+  apply finite_of_lt_pow g 1203 (by decide)
+  rw [hg, Nat.pow_add, ← Nat.mul_assoc, ← hS]
+  have h1 := sintOf_F_natAbs_lt a hfa
+  have h2 := sintOf_F_natAbs_lt b hfb
+  have h3 : (sintOf F a + sintOf F b).natAbs < 2 ^ 278 := by
+    have := Int.natAbs_add_le (sintOf F a) (sintOf F b)
+    have e : (2 : Nat) ^ 278 = 2 ^ 277 + 2 ^ 277 := by rw [show (278 : Nat) = 277 + 1 by rfl, Nat.pow_succ]; omega
+    omega
+  calc (sintOf F a + sintOf F b).natAbs * 2 ^ 925 < 2 ^ 278 * 2 ^ 925 := Nat.mul_lt_mul_of_pos_right h3 (Nat.two_pow_pos _)
+    _ = 2 ^ 1203 := by rw [← Nat.pow_add]
 
 end Claripy.FP.Fold
